@@ -4,7 +4,7 @@ from wiring import Profile
 
 MANIFEST = {
     "level": "proof",
-    "text": 'event-log theorems of the factory model; correspondence compares the complete event log (callbacks of observing processors with field snapshots, AfterPropertiesSet, Init) exactly; the EXTENDED model (Model/FactoryX.v: Init methods that look components up, post-processors that short-circuit instantiation) carries every run-level invariant family as well (Proofs/FactoryX*.v, theorems *_extended) and is what the correspondence evaluates; scenarios end with Factory.GetComponents(), are restarted on the same App value, have another App started before or in the middle, and include crowds of 24..36 instances of one type; a third stream has callbacks, AfterPropertiesSet or Init methods that fail',
+    "text": 'event-log theorems of the factory model; correspondence compares the complete event log (callbacks of observing processors with field snapshots, AfterPropertiesSet, Init) exactly; the EXTENDED model (Model/FactoryX.v: Init methods that look components up, post-processors that short-circuit instantiation) carries every run-level invariant family as well (Proofs/FactoryX*.v, theorems *_extended) and is what the correspondence evaluates; scenarios end with Factory.GetComponents(), are restarted on the same App value, have another App started before or in the middle,; a third stream has callbacks, AfterPropertiesSet or Init methods that fail',
     "design_ref": "DESIGN.md 5 C05, 4.3, Appendix A/D",
     "note": "trusted: Coq kernel + vm_compute; hand-written model (Model/Resolve.v, Factory.v, App.v) tied to the code by exact "
             "comparison of event log, wiring and lookups on generated scenarios; Python generator/Go code generator/wx runtime; "
@@ -12,8 +12,9 @@ MANIFEST = {
     "technique": "Rocq proof over the Factory/Resolve model + vm_compute correspondence on generated wiring scenarios",
 }
 
-# crowd scenarios are rare here: the dependencies-first oracle is cubic in the population (C01 C03 C06-C10 C13 carry them)
-PROFILES = [(Profile(p_wrap=0.1, n_procs=(0, 3), p_lazy=0.35, p_init=0.8, p_aps=0.5, p_crowd=0.003), 450, 4500),
+# no crowd scenarios here: the dependencies-first oracle is cubic in the population and one crowd of 36 kept a thorough-tier
+# shard busy for more than half an hour (C01 C03 C04 C06-C08 C10 C13 carry them)
+PROFILES = [(Profile(p_wrap=0.1, n_procs=(0, 3), p_lazy=0.35, p_init=0.8, p_aps=0.5, p_crowd=0.0), 450, 4500),
             (Profile(p_wrap=0.15, n_procs=(1, 2), p_lazy=0.4, p_init=0.9, p_aps=0.5, p_initget=0.4, p_short=0.5, p_crowd=0.0), 150, 1500),
             # a lifecycle that is cut short: a callback, AfterPropertiesSet or Init that fails ends the component's lifecycle
             # and the start; nothing that was refused is initialised any further or handed out as finished
